@@ -297,6 +297,9 @@ func ConvertString(octetString ...string) ([]string, error) {
 
 	for _, s := range octetString {
 		data := []byte(s)
+		if len(data) < startOfDataIdx+1 {
+			return nil, fmt.Errorf("%s: %q is too short to be a ber encoded string: %w", op, s, ErrInvalidParameter)
+		}
 
 		switch {
 		case
@@ -305,6 +308,9 @@ func ConvertString(octetString ...string) ([]string, error) {
 			_, strDataLen, err := readLength(data[startOfDataIdx:])
 			if err != nil {
 				return nil, err
+			}
+			if startOfDataIdx+strDataLen > len(data) {
+				return nil, fmt.Errorf("%s: truncated ber length: %w", op, ErrInvalidParameter)
 			}
 			converted = append(converted, string(data[(startOfDataIdx+strDataLen):]))
 
@@ -350,6 +356,9 @@ func readLength(bytes []byte) (length int, read int, err error) {
 		// Accumulate into a 64-bit variable
 		var length64 int64
 		for i := 0; i < lengthBytes; i++ {
+			if read >= len(bytes) {
+				return 0, read, errors.New("truncated long-form length")
+			}
 			b = bytes[read]
 			read++
 
